@@ -4,6 +4,8 @@
 import OttoVerif.C04.Spec
 import OttoVerif.C04.EarlySpec
 import OttoVerif.C04.Reserved
+import OttoVerif.C04.Positions
+import OttoVerif.C03.Theorems
 namespace OttoVerif.C04.Thm
 open OttoVerif.C04 OttoVerif.C04.Spec
 
@@ -316,5 +318,45 @@ theorem reserved_by_decoded_spelled (escaped : Bool) (name : String) :
 example : (decode "\\u0069f".toList).map String.ofList = some "if" ∧ (decode "v\\u0061r".toList).map String.ofList = some "var"
     ∧ isReserved "if" = true ∧ tokenKind "if" = .keyword "if" ∧ tokenKind "let" = .identifier := by decide
 end
+
+
+/-! ### operand positions (C04/Positions.lean) -/
+
+/-- the specification side's decision is sound by construction: a token string it accepts at a position of level `lvl`
+    IS the unparse of a well-formed expression tree at that level (the witness is the tree the parser model returned) -/
+theorem inLang_sound (lvl : Nat) (ai : Bool) (ts : List OttoVerif.C03.Tok) (h : Pos.inLang lvl ai ts = true) :
+    ∃ t, OttoVerif.C03.Spec.wf t = true ∧ OttoVerif.C03.Spec.isExprHead t = true ∧
+      Pos.eraseNl ts = OttoVerif.C03.Spec.pr lvl ai t ++ [Pos.eofTok] := by
+  unfold Pos.inLang at h
+  split at h
+  · rename_i t r _
+    simp only [Bool.and_eq_true, beq_iff_eq] at h
+    exact ⟨t, h.1.1.2, h.1.2, h.2⟩
+  · simp at h
+
+/-- … and complete through C03's round trip: a token string on which the parser model fails for every amount of fuel is
+    not the unparse of any well-formed expression (so "reject" is what the grammar says) -/
+theorem reject_outside_grammar (ts : List OttoVerif.C03.Tok)
+    (hrej : ∀ n, OttoVerif.C03.parseExpression n true ts = none) :
+    ¬ ∃ e, OttoVerif.C03.Spec.wf e = true ∧ OttoVerif.C03.Spec.isExprHead e = true ∧
+        ts = OttoVerif.C03.Spec.print e ++ [OttoVerif.C03.Thm.eofTok] := by
+  rintro ⟨e, hw, he, rfl⟩
+  obtain ⟨n0, h⟩ := OttoVerif.C03.Thm.parse_print e hw he
+  have := h n0 (Nat.le_refl _)
+  rw [hrej n0] at this
+  exact absurd this (by simp)
+
+/-- `b ? c , d : e` is rejected at an Expression position by model and specification (11.12: the operand between `?` and
+    `:` is an AssignmentExpression), `b ? c : d , e` is accepted; `b , c` is two array elements but no property value -/
+example :
+    let i := fun (s : String) => ({ k := .id s } : OttoVerif.C03.Tok)
+    let p := fun (x : OttoVerif.C03.P) => ({ k := .p x } : OttoVerif.C03.Tok)
+    Pos.model "expr" [i "b", p .quest, i "c", p .comma, i "d", p .colon, i "e", Pos.eofTok] = some false
+    ∧ Pos.spec "expr" [i "b", p .quest, i "c", p .comma, i "d", p .colon, i "e", Pos.eofTok] = some false
+    ∧ Pos.model "expr" [i "b", p .quest, i "c", p .colon, i "d", p .comma, i "e", Pos.eofTok] = some true
+    ∧ Pos.spec "expr" [i "b", p .quest, i "c", p .colon, i "d", p .comma, i "e", Pos.eofTok] = some true
+    ∧ Pos.spec "elems" [i "b", p .comma, i "c", Pos.eofTok] = some true
+    ∧ Pos.model "props" [i "b", p .comma, i "c", Pos.eofTok] = some false
+    ∧ Pos.spec "props" [i "b", p .comma, i "c", Pos.eofTok] = some false := by decide +kernel
 
 end OttoVerif.C04.Thm
